@@ -47,6 +47,42 @@ def generate(rnd, phrases, n):
     return out
 
 
+def unit_names(chk, name="c19-names"):
+    """how the tool spells each single unit, singular and plural (`1 <unit>`, `2 <unit>` through the library), and the
+    non-ASCII symbols of unit display; the *composition* of a compound's text is UnitDisplay.tla's"""
+    import json
+    v = ugen.Vocab()
+    rnd = random.Random(3)
+    qs, keys = [], []
+    for k, u in v.units.items():
+        w, e = v.word_for(rnd, k, allow_prefix=False)
+        if not w:
+            cand = [n for n in u["names"] if v.typable(n)]
+            if not cand:
+                continue
+            w = cand[0]
+        qs.append("1 " + w)
+        keys.append(k)
+    w_ = vlib.workdir(name)
+    inp, out = os.path.join(w_, "q.ndjson"), os.path.join(w_, "rec.ndjson")
+    vlib.write_ndjson(inp, qs)
+    vlib.conform(["c19-record", "--in", inp, "--out", out, "--any", vlib.conform_bin("release", "any"), "--ids", lang.IDS])
+    names = {k: {"sg": "?" + k, "pl": "?" + k} for k in v.units}
+    for k, r in zip(keys, vlib.read_ndjson(out)):
+        if len(r["results"]) == 1 and r["results"][0]["k"] == "val" and len(r["results"][0]["u"]) == 1 and r["results"][0]["u"][0][0] == k:
+            x = r["results"][0]
+            px = x["u"][0][2] + (3 if k == "KiloGram" else 0)
+            if px == 0 and x["u"][0][1] == 1:
+                names[k] = {"sg": x["unit_singular"], "pl": x["unit_plural"]}
+    np_, sp_ = os.path.join(w_, "names.json"), os.path.join(w_, "syms.json")
+    with open(np_, "w") as f:
+        json.dump(names, f, ensure_ascii=False)
+    with open(sp_, "w") as f:
+        json.dump({"dot": "\u22c5", "sup": ["\u2070", "\u00b9", "\u00b2", "\u00b3", "\u2074", "\u2075", "\u2076", "\u2077", "\u2078", "\u2079"], "micro": "\u03bc"}, f)
+    measured = sum(1 for k in names if not names[k]["sg"].startswith("?"))
+    return np_, sp_, measured
+
+
 def run(chk):
     p = TIERS[chk.tier]
     vlib.build_harness("release")
@@ -61,8 +97,10 @@ def run(chk):
     w = vlib.workdir("c19-run")
     inp, out = os.path.join(w, "queries.ndjson"), os.path.join(w, "rec.ndjson")
     vlib.write_ndjson(inp, queries)
-    vlib.conform(["c19-record", "--in", inp, "--out", out, "--any", vlib.conform_bin("release", "any")], timeout=7200)
-    res = lang.validate(chk, out, "c19-val", module="Trace_Cli", label="runs of the binary", chunk=400)
+    vlib.conform(["c19-record", "--in", inp, "--out", out, "--any", vlib.conform_bin("release", "any"), "--ids", lang.IDS], timeout=7200)
+    np_, sp_, measured = unit_names(chk)
+    chk.cov["unit_spellings_measured"] = measured
+    res = lang.validate(chk, out, "c19-val", module="Trace_Cli", label="runs of the binary", chunk=400, env={"NAMES": np_, "SYMS": sp_})
     chk.evals(res.records)
     for m in res.mismatches:
         rec = m["rec"] or {}
@@ -81,7 +119,8 @@ def run(chk):
                        "pluralisable and denominator-only units, malformed input; non-trivial = >= 2 results or a value with a unit, distinct by (mode, text)")
     for r in recs[:3]:
         chk.sample({"mode": r["mode"], "query": r["text"], "stdout": r["stdout"][:3]})
-    chk.assumptions += ["the decimal rendering and the unit names are taken from the library (C08 owns the former)", "the binary is run with NO_COLOR=1 and a private data directory"]
+    chk.assumptions += ["the decimal rendering (C08) and the spelling of each single unit (singular / plural) are taken from the library; blank, plural rule, prefix symbol, "
+                        "superscript powers, order and separators of a compound unit are composed by the specification (UnitDisplay.tla)", "the binary is run with NO_COLOR=1 and a private data directory"]
 
 
 def replay(chk, case):
@@ -90,8 +129,9 @@ def replay(chk, case):
     inp, out = os.path.join(w, "queries.ndjson"), os.path.join(w, "rec.ndjson")
     i = {"default": 0, "exact": 1, "describe": 2}[case["mode"]]
     vlib.write_ndjson(inp, ["1"] * i + [case["text"]])
-    vlib.conform(["c19-record", "--in", inp, "--out", out, "--any", vlib.conform_bin("release", "any")])
-    res = lang.validate(chk, out, "c19-replay-val", module="Trace_Cli", label="replay")
+    vlib.conform(["c19-record", "--in", inp, "--out", out, "--any", vlib.conform_bin("release", "any"), "--ids", lang.IDS])
+    np_, sp_, _ = unit_names(chk, "c19-replay-names")
+    res = lang.validate(chk, out, "c19-replay-val", module="Trace_Cli", label="replay", env={"NAMES": np_, "SYMS": sp_})
     for m in res.mismatches:
         if (m["rec"] or {}).get("text") == case["text"]:
             chk.violation("replayed %r: %s" % (case["text"], m["problems"]), case)
